@@ -344,17 +344,63 @@ inline Obs2D observe_2d(const Config& cfg) {
 
 inline History p2d_history(uint32_t k, uint32_t r, uint64_t mask, int api, int order, uint64_t oseed, bool finish, int payload, uint64_t pseed, uint32_t L, int cut);
 
+// Deep staircase unroll (adversarial arrival order built from the reference code): every source symbol
+// but two arrives first, `a` (in equation 0) and `s` (whose first equation j lies thousands of rows
+// further); then repair k+j, twice; then `a`, which unrolls the staircase through j nested rebuilds and
+// finally yields `s`. Block sizes of the order of 10^4 symbols, one-byte symbols.
+inline History gen_deep_chain(Chooser& ch, const GenOpts& o, bool with_finish) {
+  History h; Script s;
+  Config& c = s.cfg;
+  c.codec = CODEC_LDPC; c.N1 = ch.range(3, 5); c.k = ch.range(5500, 7000); c.r = ch.range(5500, 7000); c.seed = 1 + ch.next() % 0x7FFFFFFEu;
+  c.L = 1; c.payload = PAY_RANDOM; c.pseed = ch.next();
+  s.role = ROLE_DEC; s.align = ch.next();
+  bool cb_after;
+  add_callbacks(ch, o, s, cb_after);
+  ref::LdpcCode code = ref::ldpc_build(c.k, c.r, c.N1, c.seed);
+  std::vector<uint32_t> first_eq(c.k, 0xFFFFFFFFu);
+  for (uint32_t i = 0; i < c.r; i++) for (uint32_t x : code.row_src[i]) if (first_eq[x] == 0xFFFFFFFFu) first_eq[x] = i;
+  std::vector<int> src_with_first(c.r, -1);
+  for (uint32_t x = 0; x < c.k; x++) if (first_eq[x] != 0xFFFFFFFFu && src_with_first[first_eq[x]] < 0) src_with_first[first_eq[x]] = (int)x;
+  // the unroll starts at first_eq[a] and reaches s after D = first_eq[s] - first_eq[a] + 1 nested rebuilds;
+  // D is drawn around 4096 (a recursion bound someone might pick) half of the time, else anywhere above 3000
+  uint32_t D = ch.coin(1, 2) ? 4090 + ch.next() % 12 : ch.range(3000, 5400);
+  int a = -1, sidx = -1;
+  for (uint32_t x = 0; x < c.k && a < 0; x++) {
+    if (first_eq[x] == 0xFFFFFFFFu || first_eq[x] + 1 < D) continue;
+    uint32_t t = first_eq[x] + 1 - D;
+    if (src_with_first[t] >= 0 && (uint32_t)src_with_first[t] != x) { a = src_with_first[t]; sidx = (int)x; }
+  }
+  if (a < 0) { a = code.row_src[0].empty() ? 0 : (int)code.row_src[0][0]; }
+  for (uint32_t x = 0; x < c.k; x++) { if ((int)x == a || (int)x == sidx) continue; Step st; st.op = OP_NEW; st.esi = x; s.steps.push_back(st); }
+  if (sidx >= 0) { Step st; st.op = OP_NEW; st.esi = c.k + first_eq[(uint32_t)sidx]; s.steps.push_back(st); s.steps.push_back(st); }
+  push_query(s);
+  { Step st; st.op = OP_NEW; st.esi = (uint32_t)a; s.steps.push_back(st); }
+  push_query(s);
+  if (with_finish) { Step f; f.op = OP_FINISH; s.steps.push_back(f); push_query(s); }
+  h.scripts.push_back(s);
+  return h;
+}
+
 // ---------------------------------------------------------------------------------------------
 inline History generate(const PropSpec& ps, Chooser& ch) {
   switch (ps.kind) {
     case 1: return gen_single_encoder(ch, ps.go);
-    case 2: return ch.coin(1, 3) ? gen_single_encoder(ch, ps.go) : gen_single_decoder(ch, ps.go);
+    case 2: {
+      // memory properties: mostly single sessions, one case in four several interleaved sessions (shared
+      // or cached state between sessions is where use-after-free and double free hide)
+      uint32_t w = ch.next() % 12;
+      if (w >= 9) { GenOpts g = ps.go; g.max_k_ldpc = std::min<uint32_t>(g.max_k_ldpc, 40); g.max_n_ldpc = std::min<uint32_t>(g.max_n_ldpc, 80); g.max_n_rs = 40; return gen_multi(ch, g); }
+      if ((ps.go.codecs & GC_LDPC) && ch.next() % 160 == 159) return gen_deep_chain(ch, ps.go, false);
+      return w >= 6 ? gen_single_encoder(ch, ps.go) : gen_single_decoder(ch, ps.go);
+    }
     case 3: return gen_multi(ch, ps.go);
     case 4: return gen_code_case(ps, ch);
     case 5: return gen_lastnull_case(ps, ch);
     case 6: return gen_param_case(ps, ch);
     case 7: { uint32_t k = ch.range(1, 16), r = ch.range(2, 10); uint64_t m = ch.seed64(); return p2d_history(k, r, m & ((1ull << (k + r)) - 1), ch.next() % 2, ch.next() % 4, ch.seed64(), ch.coin(2, 3), ch.next() % 2, ch.next(), ch.range(1, 40), -1); }
-    default: return gen_single_decoder(ch, ps.go);
+    default:
+      if ((ps.go.codecs & GC_LDPC) && ps.go.api_mode != 2 && ch.next() % 160 == 159) return gen_deep_chain(ch, ps.go, ps.go.finish_mode == 1);
+      return gen_single_decoder(ch, ps.go);
   }
 }
 
@@ -566,6 +612,40 @@ inline void enumerate_small(const PropSpec& ps, const Tier& t, int worker, int n
 
 template <class F>
 inline void enumerate(const std::string& prop, const Tier& t, int worker, int nworkers, uint64_t seed, F one, std::string& extra_json, const PropSpec* psp = nullptr, Stats* st_out = nullptr) {
+  if (prop == "C06") {
+    // generator identity, complete: the generator row of ESI j does not depend on n, so n = maximum covers
+    // every accepted (k, n); identity payload exposes every coefficient
+    uint64_t idx = 0, blocks = 0;
+    auto enc = [&](int codec, uint32_t m, uint32_t k, uint32_t n) {
+      History h; Script e; e.cfg.codec = codec; e.cfg.m = m; e.cfg.k = k; e.cfg.r = n - k; e.cfg.payload = PAY_IDENTITY; e.role = ROLE_ENC; e.align = k;
+      Step sp; sp.op = OP_SETPARAMS; e.steps.push_back(sp);
+      for (uint32_t j = k; j < n; j++) { Step b; b.op = OP_BUILD; b.esi = j; b.flag = (j + k) % 5 == 0; e.steps.push_back(b); }
+      h.scripts.push_back(e); return h;
+    };
+    for (uint32_t k = 1; k <= 254; k++) {
+      if (!t.thorough && !(k <= 4 || k == 8 || k == 16 || k == 32 || k == 64 || k == 128 || k == 200 || k >= 253)) continue;
+      if ((idx++ % (uint64_t)nworkers) != (uint64_t)worker) continue;
+      if (!one(enc(CODEC_RS8, 8, k, 255))) return;
+      if (!one(enc(CODEC_RSM, 8, k, 255))) return;
+      blocks += 2;
+      if (k <= 14) { if (!one(enc(CODEC_RSM, 4, k, 15))) return; blocks++; }
+    }
+    // LDPC: identity payload over a grid of (k, r, N1, seed)
+    for (uint32_t k : {1u, 2u, 3u, 5u, 10u, 31u, 32u, 33u, 100u, 400u}) for (uint32_t N1 : {3u, 4u, 7u, 10u}) for (uint32_t rr : {0u, 1u, 2u}) for (uint32_t sd : {1u, 0x7FFFFFFEu, 12345u}) {
+      if ((idx++ % (uint64_t)nworkers) != (uint64_t)worker) continue;
+      uint32_t r = std::max<uint32_t>(N1, rr == 0 ? k / 2 : rr == 1 ? k : 3 * k);
+      if (!t.thorough && k > 100) continue;
+      History h; Script e; e.cfg.codec = CODEC_LDPC; e.cfg.k = k; e.cfg.r = r; e.cfg.N1 = N1; e.cfg.seed = sd; e.cfg.payload = PAY_IDENTITY; e.role = ROLE_ENC;
+      Step sp; sp.op = OP_SETPARAMS; e.steps.push_back(sp);
+      for (uint32_t j = k; j < k + r; j++) { Step b; b.op = OP_BUILD; b.esi = j; b.flag = j % 7 == 0; e.steps.push_back(b); }
+      h.scripts.push_back(e);
+      if (!one(h)) return;
+      blocks++;
+    }
+    if (st_out) { st_out->exhaustive = true; st_out->subspaces.push_back(std::string("identity-payload generator rows for RS-2^8 / RS-2^m(m=8) k in ") + (t.thorough ? "1..254 (all)" : "{1..4, 8, 16, 32, 64, 128, 200, 253, 254}") + " with n=255 and RS-2^m(m=4) k in 1..14 with n=15; LDPC identity payload over a (k, r, N1, seed) grid: complete for the listed grid"); }
+    extra_json = "\"x_identity_blocks_this_worker\":" + std::to_string(blocks);
+    return;
+  }
   if (prop != "C16") { if (psp && psp->kind <= 2) enumerate_small(*psp, t, worker, nworkers, seed, one, st_out, extra_json); return; }
   // (1) which (k, r) does the codec accept?
   std::vector<std::pair<uint32_t, uint32_t>> accepted;
